@@ -59,8 +59,15 @@ func classify(err error, o *Outcome) {
 }
 
 // InProc runs lang.EvalProgram.
-func InProc(prog string, files []InFile, selectors []string, opts Opts) (o Outcome) {
+func InProc(prog string, files []InFile, selectors []string, opts Opts) Outcome {
 	var out bytes.Buffer
+	return InProcW(prog, files, selectors, opts, &out)
+}
+
+// InProcW is InProc writing stdout into the caller's buffer (so that a reader
+// owned by the caller can observe what has been written so far).
+func InProcW(prog string, files []InFile, selectors []string, opts Opts, outp *bytes.Buffer) (o Outcome) {
+	out := outp
 	inputs := make([]lang.InputFile, len(files))
 	for i, f := range files {
 		r := f.Reader
@@ -87,7 +94,7 @@ func InProc(prog string, files []InFile, selectors []string, opts Opts) (o Outco
 			o.Stack = string(debug.Stack())
 		}
 	}()
-	ev, err := lang.EvalProgram(prog, inputs, selectors, &out, opts.Fuzzing)
+	ev, err := lang.EvalProgram(prog, inputs, selectors, out, opts.Fuzzing)
 	classify(err, &o)
 	o.HasEval = ev != nil
 	if opts.WantRoot && err == nil && ev != nil {
